@@ -397,15 +397,26 @@ def run(ctx: Ctx):
     hdr = gr.node_of(loops_r[0])
     dom_r = gr.dominators()
     n_back = 0
+    uses_leaves = False
     for (a, lbl) in gr.pred[hdr.id]:
         na = gr.nodes[a]
         if hdr.id not in dom_r.get(a, ()) or a == hdr.id:
             continue                      # the edge that enters the loop
         n_back += 1
         fs = fr.along(na, lbl)
-        ok = any(any(p_ and ".get('scheduled'" in t.replace('"', "'") and t.startswith("t.") for (t, p_) in cl)
-                 and all((p_ and ".get('scheduled'" in t.replace('"', "'") and t.startswith("t.")) or ((not p_) and t == "t") for (t, p_) in cl)
-                 for cl in fs)
+        def own_flag(t, p_):
+            return p_ and ".get('scheduled'" in t.replace('"', "'") and t.startswith("t.")
+
+        def all_leaves(t, p_):
+            # "every leaf below t is scheduled": as good as t's own flag when the roll-up closes a container in the same round
+            # in which its last leaf is placed -- the roll-up rules are evaluated below as obligations of C04 for that reason
+            tt = t.replace('"', "'")
+            return p_ and tt.startswith("all(") and ".get('scheduled'" in tt and "t.allLeaves()" in tt and " if " not in tt
+        ok = any((any(own_flag(t, p_) or all_leaves(t, p_) for (t, p_) in cl) or all((not p_) and t == "t" for (t, p_) in cl))
+                 and all(own_flag(t, p_) or all_leaves(t, p_) or ((not p_) and t == "t") for (t, p_) in cl)
+                 for cl in fs if cl)
+        if ok and not any(any(own_flag(t, p_) for (t, p_) in cl) and all(own_flag(t, p_) or ((not p_) and t == "t") for (t, p_) in cl) for cl in fs):
+            uses_leaves = True
         ctx.ob("R04.7", f"{rdy.qual}: iteration ends at line {getattr(na.ast, 'lineno', '?')} with the predecessor's own scheduled flag established",
                (rdy, na.ast), ok,
                "next edge is examined only when this predecessor is missing or itself marked scheduled" if ok else
@@ -415,6 +426,12 @@ def run(ctx: Ctx):
     if not n_back:
         raise AnchorMissing("_asapReadyForScheduling: no back edge of the readiness loop found")
     ctx.floor("R04.7", 1)
+    if uses_leaves:
+        # readiness judges a container by its leaves: then the container's dates must exist by the time the dependant is examined
+        from .c07 import rollup_rules
+        from .c10 import rollup_order_rule
+        rollup_rules(ctx, "R04.7")
+        rollup_order_rule(ctx, "R04.7")
     # ---------------------------------------------------------------- R04.9 gap units
     # gaplength (working time) is counted in slots of the project's resolution; gapduration / maxgapduration (elapsed time)
     # are converted with calendar units (1d = 24h, 1w = 168h)
